@@ -520,6 +520,13 @@ func (dec *Decoder) initFrame() error {
 
 	dec.cacheV = slab[off : off+cacheVSize]
 
+	// Reset the left context (intraL, left MB sentinel). parseFrame only calls
+	// initScanline at the end of each row, so without this the first row of a
+	// pooled decoder would start from whatever left intra modes a previous
+	// decode that failed mid-row left behind (libwebp: AllocateMemory calls
+	// VP8InitScanline).
+	dec.initScanline()
+
 	// Crop/filter bounds default to full image.
 	dec.tlMBX = 0
 	dec.tlMBY = 0
